@@ -366,7 +366,7 @@ def tagged(ctx, arg, rec):
     from hypothesis import strategies as st
 
     profile, shard, n = arg
-    base = e2e.case_strategy(profile, max_ops=6, big=True, small_arena=True)
+    base = e2e.case_strategy(profile, max_ops=6 if profile != "luts" else 14, big=profile != "luts", small_arena=True, dtypes=None if profile != "luts" else ("int8", "int8", "uint8"))
     run_hypothesis(rec, st.builds(lambda c: dict(c, kind="c03"), base), oracle, n, sub_seed(ctx.seed, PROPERTY, profile, shard))
 
 
@@ -382,6 +382,7 @@ def parts(ctx):
     q = ctx.quick
     ps = [Part("tagged-npu%02d" % i, tagged, ("npu", i, 22 if q else 700)) for i in range(8)]
     ps += [Part("tagged-cascade%02d" % i, tagged, ("cascade", i, 10 if q else 300)) for i in range(4)]
+    ps += [Part("tagged-luts%02d" % i, tagged, ("luts", i, 10 if q else 300)) for i in range(2)]
     ps += [Part("poison%02d" % i, poison, ("exact" if i % 2 else "cascade", i, 8 if q else 300)) for i in range(4)]
     return ps
 
